@@ -27,7 +27,7 @@ func init() {
 	assumeSite("C16-SKIP", "cmd/compile.(Generator).emitStructValue#skips-element", "skips the embedded Node only, which is re-created")
 	register(&PropDef{
 		ID:          "C16",
-		Patterns:    []string{"./cmd/compile", "./node", "./data"},
+		Patterns:    []string{"./cmd/compile", "./node", "./data", "./parser"},
 		Explanation: "The ahead-of-time compiler rebuilds every AST node as a Go literal: a special handler if one is registered for the node type, else a scalar emitter, else a reflective struct literal, else an EmitError. 'A construct the generator cannot translate is reported as a compile error, never silently dropped or altered' has three structural necessary conditions: (HANDLER) a special handler reads every field of its node type that carries program content (all fields except the embedded Node and fields tagged pp:\"-\"), directly, through FieldByName, or by handing the node to a helper — a field it never reads is dropped from the compiled program; (TABLE) each registered handler asserts the node type it is registered for; (ERR) the reflective route turns every untranslatable shape into an error: each IsExported() test returns a non-nil error, the kind switch has an error default, and Emit ends in newEmitError. Whether the emitted program behaves like the interpreted one is not decided (that needs execution).",
 		Assumptions: []string{
 			"specialHandlers is one map literal keyed by reflect.TypeOf((*pkg.T)(nil))",
@@ -438,6 +438,9 @@ func c16Run(r *Run) {
 			if f.Embedded() && reads["<promoted>"] {
 				continue // fields of the embedded node are read through promotion
 			}
+			if c16DerivedByEmittedCtor(r, e.h, e.t, f.Name()) {
+				continue // computed by the constructor the handler emits, from what the handler passes it
+			}
 			missing = append(missing, f.Name())
 		}
 		sort.Strings(missing)
@@ -805,4 +808,144 @@ func c16ParamToFieldByName(info *types.Info, fd *ast.FuncDecl, p types.Object) b
 		return !found
 	})
 	return found
+}
+
+// c16DerivedByEmittedCtor: the handler emits a call of a constructor of package node ("node.NewX(" appears
+// in one of its string literals), and that constructor fills the field with a value it computes itself
+// (a call or other compound expression over its parameters, not a parameter stored as it is): the field
+// is rebuilt in the compiled program by that very call.
+func c16DerivedByEmittedCtor(r *Run, h *ast.FuncDecl, nt *types.Named, field string) bool {
+	npkg := r.pkg("node")
+	if npkg == nil || nt == nil {
+		return false
+	}
+	emitted := map[string]bool{}
+	ast.Inspect(h.Body, func(n ast.Node) bool {
+		if bl, ok := n.(*ast.BasicLit); ok && bl.Kind == token.STRING {
+			txt := bl.Value
+			for {
+				i := strings.Index(txt, "node.New")
+				if i < 0 {
+					break
+				}
+				j := i + len("node.")
+				k := j
+				for k < len(txt) && (txt[k] == '_' || txt[k] >= '0' && txt[k] <= '9' || txt[k] >= 'A' && txt[k] <= 'Z' || txt[k] >= 'a' && txt[k] <= 'z') {
+					k++
+				}
+				if k < len(txt) && txt[k] == '(' {
+					emitted[txt[j:k]] = true
+				}
+				txt = txt[k:]
+			}
+		}
+		return true
+	})
+	if len(emitted) == 0 {
+		return false
+	}
+	info := npkg.TypesInfo
+	for _, fd := range funcDecls(npkg) {
+		if fd.Recv != nil || fd.Body == nil || !emitted[fd.Name.Name] {
+			continue
+		}
+		derived := false
+		ast.Inspect(fd.Body, func(n ast.Node) bool {
+			cl, ok := n.(*ast.CompositeLit)
+			if !ok || namedOf(info.TypeOf(cl)) != nt {
+				return true
+			}
+			for _, el := range cl.Elts {
+				kv, ok := el.(*ast.KeyValueExpr)
+				if !ok {
+					continue
+				}
+				if id, ok := kv.Key.(*ast.Ident); ok && id.Name == field {
+					switch ast.Unparen(kv.Value).(type) {
+					case *ast.Ident, *ast.SelectorExpr, *ast.BasicLit:
+					default:
+						derived = true
+					}
+				}
+			}
+			return true
+		})
+		if derived && !c16FieldSetElsewhere(r, fd, nt, field) {
+			return true
+		}
+	}
+	return false
+}
+
+// c16FieldSetElsewhere: somewhere in the loaded packages, outside constructor ctor, field `field` of nt is
+// given a value that is not a copy of the same field of another node (an assignment x.f = …, or a
+// composite literal of nt with f: …). Then the constructor's own computation is not the only source of
+// the field and a handler that leaves it to the constructor loses what the parser stored.
+func c16FieldSetElsewhere(r *Run, ctor *ast.FuncDecl, nt *types.Named, field string) bool {
+	st, ok := nt.Underlying().(*types.Struct)
+	if !ok {
+		return true
+	}
+	var fv *types.Var
+	for i := 0; i < st.NumFields(); i++ {
+		if st.Field(i).Name() == field {
+			fv = st.Field(i)
+		}
+	}
+	if fv == nil {
+		return true
+	}
+	elsewhere := false
+	for _, p := range r.Roots {
+		info := p.TypesInfo
+		isSameFieldCopy := func(e ast.Expr) bool {
+			se, ok := ast.Unparen(e).(*ast.SelectorExpr)
+			if !ok {
+				return false
+			}
+			sel, ok := info.Selections[se]
+			return ok && sel.Obj() == fv
+		}
+		for _, fd := range funcDecls(p) {
+			if fd == ctor || fd.Body == nil {
+				continue
+			}
+			ast.Inspect(fd.Body, func(n ast.Node) bool {
+				switch x := n.(type) {
+				case *ast.AssignStmt:
+					for i, l := range x.Lhs {
+						if se, ok := ast.Unparen(l).(*ast.SelectorExpr); ok {
+							if sel, ok := info.Selections[se]; ok && sel.Obj() == fv {
+								if len(x.Rhs) != len(x.Lhs) || !isSameFieldCopy(x.Rhs[i]) {
+									elsewhere = true
+								}
+							}
+						}
+					}
+				case *ast.IncDecStmt:
+					if se, ok := ast.Unparen(x.X).(*ast.SelectorExpr); ok {
+						if sel, ok := info.Selections[se]; ok && sel.Obj() == fv {
+							elsewhere = true
+						}
+					}
+				case *ast.CompositeLit:
+					if namedOf(info.TypeOf(x)) != nt {
+						return true
+					}
+					for _, el := range x.Elts {
+						kv, ok := el.(*ast.KeyValueExpr)
+						if !ok {
+							elsewhere = true // positional literal sets every field
+							continue
+						}
+						if id, ok := kv.Key.(*ast.Ident); ok && id.Name == field && !isSameFieldCopy(kv.Value) {
+							elsewhere = true
+						}
+					}
+				}
+				return !elsewhere
+			})
+		}
+	}
+	return elsewhere
 }
